@@ -84,7 +84,7 @@ def fam_C01(rng, tier):
     cs = hist_cases(rng, tier, 'history', 60 * n, 4, 45, nslots=3,
                     weights={'read': 24, 'root': 2, 'sszrt': 0.5, 'serde': 0.5})
     cs += hist_cases(rng, tier, 'history-large-N', 12 * n, 3, 35, nslots=2,
-                     ns=[1024, 2 ** 40], kinds=['u8', 'u64', 'u256', 'h256', 'var'],
+                     ns=[1024, 2 ** 40, 2 ** 48, 2 ** 50], kinds=['u8', 'u64', 'u256', 'h256', 'var'],
                      weights={'read': 24, 'root': 2})
     cs += exhaustive_reads(rng, tier)
     cs += motif_histories(rng, tier)
@@ -181,7 +181,7 @@ def fam_C02(rng, tier):
     cs = hist_cases(rng, tier, 'roots-after-mutations', 60 * n, 4, 45, weights=w, pzero=0.6,
                     final_roots=True)
     cs += hist_cases(rng, tier, 'roots-large-N', 14 * n, 3, 30, weights=w, pzero=0.6, nslots=2,
-                     ns=[1024, 2 ** 40], kinds=['u8', 'u64', 'u256', 'h256', 'var'],
+                     ns=[1024, 2 ** 40, 2 ** 48, 2 ** 50], kinds=['u8', 'u64', 'u256', 'h256', 'var'],
                      final_roots=True)
     cs += root_paths(rng, tier)
     return cs
@@ -190,6 +190,15 @@ def fam_C02(rng, tier):
 def root_paths(rng, tier):
     """the same contents reached through different construction paths, then `root`."""
     out = []
+    # empty and emptied collections (a single padding node) at every depth class
+    for (kind, N) in [('u64', 2 ** 50), ('h256', 2 ** 48), ('u64', 2 ** 40), ('h256', 2 ** 40), ('u8', 2 ** 40),
+                      ('u64', 1024), ('h256', 33), ('u64', 2 ** 60), ('h256', 2 ** 63)]:
+        r = sub(rng)
+        m = 'btree' if N > 2 ** 50 else r.choice(MAPS)
+        xs = [val(r, kind) for _ in range(r.randint(1, 9))]
+        lines = [cfg_line((kind, N, m)), 'empty 0', 'root 0', 'new 1 list', 'root 1', 'new 2 list ' + ' '.join(xs),
+                 'root 2', 'pop 2 %d' % len(xs), 'len 2', 'root 2', 'eq 0 2', 'push 2 %s' % xs[0], 'apply 2', 'root 2']
+        out.append(Case(lines, 'root-empty-and-emptied', (), {'cfg': (kind, N, m)}))
     for cfg in pick_configs(rng, scale(tier, 40, 200)):
         kind, N, m = cfg
         r = sub(rng)
@@ -352,7 +361,7 @@ def build_paths(r, kind, N, xs, slot0, lines):
         nonlocal h
         lines.extend(ls)
         slots.append(h)
-        h += 1
+        h += 2          # odd slots are scratch (dropped again by the path that uses them)
     ln = len(xs)
     add(['new %d list %s' % (h, ' '.join(xs))])
     add(['fromiterslow %d %s' % (h, ' '.join(xs))])
@@ -379,6 +388,18 @@ def build_paths(r, kind, N, xs, slot0, lines):
             ls.append('getmut %d %d %s' % (h, i, xs[i]))
         ls.append('apply %d' % h)
         add(ls)
+    if ln >= 2:
+        # prefix, then the rest through one bulk update whose keys are inserted in descending order
+        k0 = r.randint(0, ln - 1)
+        kvs = ['%d:%s' % (i, xs[i]) for i in range(ln - 1, k0 - 1, -1)]
+        if k0 and r.random() < 0.5:
+            kvs.append('%d:%s' % (0, xs[0]))
+        add(['new %d list %s' % (h, ' '.join(xs[:k0])), 'bulk %d %s' % (h, ' '.join(kvs)), 'apply %d' % h])
+    # rebased on a hashed base of a DIFFERENT length that only differs by zero values / is a prefix
+    Zv = zero_val(kind)
+    longer = xs + [Zv] * r.randint(1, max(1, min(N - ln, 9))) if ln < N else xs[:max(0, ln - r.randint(1, 3))]
+    add(['new %d list %s' % (h, ' '.join(xs)), 'root %d' % h, 'new %d list %s' % (h + 1, ' '.join(longer)),
+         'root %d' % (h + 1), 'rebase %d %d' % (h, h + 1), 'drop %d' % (h + 1)])
     # rebased on / deduplicated versions
     add(['clone %d %d' % (slots[0], h), 'root %d' % h, 'intra %d' % h])
     add(['new %d list %s' % (h, ' '.join(xs)), 'rebase %d %d' % (h, slots[1])])
@@ -409,7 +430,7 @@ def fam_C06(rng, tier):
             ys = xs + [zero_val(kind)]
         else:
             ys = xs[:-1] if ln else ([zero_val(kind)] if N >= 1 else [])
-        base = slots[-1] + 1
+        base = slots[-1] + 2
         slots2 = build_paths(r, kind, N, ys, base, lines)
         allslots = slots + slots2
         for a in allslots:
@@ -418,7 +439,7 @@ def fam_C06(rng, tier):
             for b in allslots[i:]:
                 lines.append('eq %d %d' % (a, b))
         if ln == N and N <= 40:
-            v0 = allslots[-1] + 1
+            v0 = allslots[-1] + 2
             lines += ['tovector %d %d' % (slots[0], v0), 'tovector %d %d' % (slots[2], v0 + 1),
                       'new %d vec %s' % (v0 + 2, ' '.join(xs)), 'fromelem %d %s' % (v0 + 3, xs[0]),
                       'eq %d %d' % (v0, v0 + 1), 'eq %d %d' % (v0, v0 + 2), 'eq %d %d' % (v0 + 2, v0 + 3),
@@ -433,7 +454,7 @@ def rebase_pair(r, kind, N, lines):
     ln = r.randint(0, maxl)
     xs = [val(r, kind, pzero=0.5) for _ in range(ln)]
     motif = r.choice(['equal', 'zero-suffix', 'prefix', 'k-diff', 'unrelated', 'shared', 'pending-self',
-                      'pending-base', 'converted'])
+                      'pending-base', 'converted', 'pending-compensates', 'left-diff-unhashed-base'])
     Z = zero_val(kind)
     if motif == 'equal':
         a, b = xs, list(xs)
@@ -457,9 +478,26 @@ def rebase_pair(r, kind, N, lines):
     elif motif == 'unrelated':
         a = xs
         b = [val(r, kind) for _ in range(r.randint(0, maxl))]
+    elif motif == 'pending-compensates':
+        k = r.randint(0, ln)
+        a = xs[:k] + [Z] * (ln - k)
+        b = xs[:k]
+    elif motif == 'left-diff-unhashed-base':
+        a = xs
+        b = list(xs)
+        if ln:
+            b[r.randrange(max(1, ln // 2))] = val(r, kind, pzero=0.0)
     else:
         a, b = xs, list(xs)
     lines.append('new 0 list ' + ' '.join(a))
+    if motif == 'pending-compensates':
+        lines += ['new 1 list ' + ' '.join(b), 'root 0', 'root 1']
+        for _ in range(len(a) - len(b)):
+            lines.append('push 1 %s' % (Z if r.random() < 0.7 else val(r, kind)))
+        return motif
+    if motif == 'left-diff-unhashed-base':
+        lines += ['new 1 list ' + ' '.join(b), 'root 0']
+        return motif
     if motif == 'shared':
         lines.append('clone 0 1')
         for _ in range(r.randint(0, 3)):
@@ -621,7 +659,7 @@ def fam_C09(rng, tier):
             vec = ln == N and N <= 40 and r.random() < 0.3
             k = 'vec' if vec else 'list'
             lines = [cfg_line(cfg), 'new 0 %s %s' % (k, ' '.join(xs))]
-            c = r.randrange(5)
+            c = r.randrange(6)
             if c == 0:
                 lines.append('root 0')
             elif c == 1:
@@ -633,6 +671,11 @@ def fam_C09(rng, tier):
                 lines += ['new 1 %s %s' % (k, ' '.join(xs)), 'rebase 0 1']     # unhashed base
             elif c == 3 and not vec and ln < N:
                 lines += ['push 0 %s' % Z]                                      # pending write
+            elif c == 4 and ln:
+                # hashed self, un-hashed base that differs only in the (full) left part
+                ys = list(xs)
+                ys[r.randrange(max(1, ln // 2))] = val(r, kind, pzero=0.0)
+                lines += ['root 0', 'new 1 %s %s' % (k, ' '.join(ys)), 'rebase 0 1']
             lines += ['clone 0 8', 'intra 0', 'len 0', 'tovec 0', 'pending 0', 'apply 8', 'eq 0 8',
                       'root 0', 'root 8']
             lines += ['new 9 %s %s' % (k, ' '.join(xs + ([Z] if (c == 3 and not vec and ln < N) else [])))]
@@ -727,6 +770,10 @@ def fam_C10(rng, tier):
                 lines.append('getmut 0 %d %s' % (i, val(r, kind)))
             else:
                 lines.append('push 0 %s' % val(r, kind))
+        # elements that are only READ through a copy-on-write handle must not become writes
+        for _ in range(r.randint(0, 4)):
+            if ln:
+                lines.append('cow 0 %d read' % r.randrange(ln))
         lines += ['apply 0', 'dump 1 0']                                 # old version first
         meta = {'cfg': cfg, 'k': len(keys), 'len': ln}
         lines += ['root 0', 'dump 1 0']
@@ -737,6 +784,22 @@ def fam_C10(rng, tier):
         lines += ['clone 0 2', 'pop 0 %d' % n, 'dump 2 0', 'len 0']
         meta['pop'] = n
         out.append(Case(lines, 'path-copying', ('clone_free', 'flush_bound', 'size_bound', 'pop_reuse', 'root_memoises'), meta))
+    # the flush performed by List -> Vector conversion copies only the touched paths too
+    for cfg in pick_configs(rng, scale(tier, 30, 150), ns=[4, 5, 7, 8, 9, 16, 17, 32, 33]):
+        kind, N, m = cfg
+        r = sub(rng)
+        xs = [val(r, kind) for _ in range(N)]
+        lines = [cfg_line(cfg), 'new 0 list ' + ' '.join(xs)]
+        if r.random() < 0.7:
+            lines.append('root 0')
+        lines.append('clone 0 1')
+        k = r.choice([1, 1, 2, 3])
+        keys = set(aim_index(r, N, PF[kind]) for _ in range(k))
+        for i in sorted(keys):
+            lines.append(r.choice(['getmut 0 %d %s', 'cow 0 %d intomut %s']) % (i, val(r, kind)))
+        lines += ['tovector 0 3', 'dump 1 3']
+        out.append(Case(lines, 'path-copying-conversion', ('flush_bound',), {'cfg': cfg, 'k': len(keys), 'len': N,
+                                                                             'dump_line': 'dump 1 3'}))
     return out
 
 
@@ -966,6 +1029,7 @@ def fam_C15(rng, tier):
                 lines += ['apply 0', 'root 0']
             out.append(Case(lines, 'faults' + ('-huge-N' if huge else ''), ('wellformed', 'error_atomic'),
                             {'cfg': cfg}))
+    out += motif_histories(rng, tier)
     return out
 
 
@@ -1048,7 +1112,12 @@ def conc_heavy(rng, tier):
         lines = [cfg_line(cfg)]
         for rnd in range(scale(tier, 2, 3)):
             n = min(N, r.choice([N, 200, 600]) if N > 40 else N)
-            xs = [val(r, kind, pzero=0.1) for _ in range(n)]
+            if kind == 'nest':
+                # few outer elements, large inner lists: each element root is a deep rayon fork-join
+                n = min(N, 48)
+                xs = [hexs(bytes(r.randrange(256) for _ in range(8 * r.choice([256, 512, 1024])))) for _ in range(n)]
+            else:
+                xs = [val(r, kind, pzero=0.1) for _ in range(n)]
             lines.append('new 0 list ' + ' '.join(xs))
             lines.append('clone 0 1')
             if n:
